@@ -221,6 +221,7 @@ Definition open_file_in_dir (d : N) (name : list N) (md : mode) : M N := locked 
   match sfn_of_str name with
   | None => fail FilenameError
   | Some sfn =>
+      if list_eqb sfn THIS_DIR_NAME || list_eqb sfn PARENT_DIR_NAME then fail OpenedDirAsFile else
       r <- try (find_directory_entry vi (d_cluster dd) sfn) ;;
       oe <- match r with
             | inl e => ret (Some e)
@@ -476,6 +477,7 @@ Definition make_dir_in_dir (d : N) (name : list N) : M unit := locked (
   match sfn_of_str name with
   | None => fail FilenameError
   | Some sfn =>
+      if list_eqb sfn THIS_DIR_NAME || list_eqb sfn PARENT_DIR_NAME then fail DirAlreadyExists else
       r <- try (find_directory_entry vi (d_cluster dd) sfn) ;;
       match r with
       | inl e => if is_directory (e_attr e) then fail DirAlreadyExists else fail FileAlreadyExists
